@@ -120,14 +120,14 @@ package runtime
 //@   ensures[group-length] err == nil && n == 11 + int(dAtA[9])
 
 //@ func SizeInputToOptions
-//@   property C05, C04
+//@   property C05, C04, C01
 //@   mode bv
 //@   ensures[deterministic] result.Deterministic <==> input.Flags & protoiface.MarshalDeterministic != 0
 //@   ensures[cached] result.UseCachedSize <==> input.Flags & protoiface.MarshalUseCachedSize != 0
 //@   ensures[partial] result.AllowPartial
 
 //@ func MarshalInputToOptions
-//@   property C05, C04
+//@   property C05, C04, C01
 //@   mode bv
 //@   ensures[deterministic] result.Deterministic <==> input.Flags & protoiface.MarshalDeterministic != 0
 //@   ensures[cached] result.UseCachedSize <==> input.Flags & protoiface.MarshalUseCachedSize != 0
